@@ -4,6 +4,7 @@ import Mathlib.Algebra.Order.Field.Basic
 import Mathlib.Algebra.Order.AbsoluteValue.Basic
 import Mathlib.Tactic.Linarith
 import Mathlib.Tactic.NormNum
+import Mathlib.Algebra.Order.Floor.Ring
 /-
   Exact-arithmetic instance of RV/Model/Integrate.lean (any linearly ordered field) and the
   lemmas behind RV/Props/C08.lean.
@@ -157,9 +158,9 @@ theorem checkExit_run (s : Sim K) (tmax lf : K) (f : Flags)
       else if tmax * copysign 1 s.dt ≤ s.t * copysign 1 s.dt then CE.ret { s with status := 0 } lf
         else CE.ret s lf) := by
   rcases hs with hs | hs
-  · simp [checkExit, hs, he, hn, Status.code]
+  · simp [checkExit, exitCountdown, exitTime, exitNoParticles, hs, he, hn, Status.code]
     split_ifs <;> rfl
-  · simp [checkExit, hs, he, hn, Status.code, tscale]
+  · simp [checkExit, exitCountdown, exitTime, exitNoParticles, hs, he, hn, Status.code, tscale]
     split_ifs <;> rfl
 
 /-! ### fixed-step integrators -/
